@@ -639,7 +639,7 @@ package reflect
 //@ macro sdsR3g = forall b Int, i Int, j Int :: {itAbi(sds, b, i), itAbi(sds, b, j)} 0 <= b && b <= 65535 && slotp(sds, b) != 0 && 0 <= i && i < j && j < slotn(sds, b) ==> itAbi(sds, b, i) != itAbi(sds, b, j)
 //@ macro sdsR4g = sds != nil && sds + 8 * 65536 <= $brk && (forall b Int :: {slotp(sds, b)} 0 <= b && b <= 65535 && slotp(sds, b) != 0 ==> slotp(sds, b) + 24 <= $brk && sel(heap("*[]mapStructDescItem"), slotp(sds, b)).ptr + 16 * slotn(sds, b) <= $brk)
 
-//@ macro sdsinv = (forall b Int, i Int :: {itAbi(sds, b, i)} 0 <= b && b <= 65535 && slotp(sds, b) != 0 && 0 <= i && i < slotn(sds, b) ==> itAbi(sds, b, i) % 65536 == b && $sds[itAbi(sds, b, i)] == itSd(sds, b, i)) && (forall k Int :: {$sds[k]} 0 <= k && $sds[k] != 0 ==> slotp(sds, k % 65536) != 0 && 0 <= $sdsidx[k] && $sdsidx[k] < slotn(sds, k % 65536) && itAbi(sds, k % 65536, $sdsidx[k]) == k) && (forall b Int, i Int, j Int :: {itAbi(sds, b, i), itAbi(sds, b, j)} 0 <= b && b <= 65535 && slotp(sds, b) != 0 && 0 <= i && i < j && j < slotn(sds, b) ==> itAbi(sds, b, i) != itAbi(sds, b, j)) && (sds != nil && sds + 8 * 65536 <= $brk && (forall b Int :: {slotp(sds, b)} 0 <= b && b <= 65535 && slotp(sds, b) != 0 ==> slotp(sds, b) + 24 <= $brk && sel(heap("*[]mapStructDescItem"), slotp(sds, b)).ptr + 16 * slotn(sds, b) <= $brk)) && $sds[0] == 0 && (forall k Int :: {$sds[k]} $sds[k] != 0 ==> goodSD($sds[k], structT(typeOfAbi(k))) && structish(typeOfAbi(k)))
+//@ macro sdsinv = (forall b Int, i Int :: {itAbi(sds, b, i)} 0 <= b && b <= 65535 && slotp(sds, b) != 0 && 0 <= i && i < slotn(sds, b) ==> itAbi(sds, b, i) % 65536 == b && $sds[itAbi(sds, b, i)] == itSd(sds, b, i)) && (forall k Int :: {$sds[k]} 0 <= k && $sds[k] != 0 ==> slotp(sds, k % 65536) != 0 && 0 <= $sdsidx[k] && $sdsidx[k] < slotn(sds, k % 65536) && itAbi(sds, k % 65536, $sdsidx[k]) == k) && (forall b Int, i Int, j Int :: {itAbi(sds, b, i), itAbi(sds, b, j)} 0 <= b && b <= 65535 && slotp(sds, b) != 0 && 0 <= i && i < j && j < slotn(sds, b) ==> itAbi(sds, b, i) != itAbi(sds, b, j)) && (sds != nil && sds + 8 * 65536 <= $brk && (forall b Int :: {slotp(sds, b)} 0 <= b && b <= 65535 && slotp(sds, b) != 0 ==> slotp(sds, b) + 24 <= $brk && sel(heap("*[]mapStructDescItem"), slotp(sds, b)).ptr + 16 * slotn(sds, b) <= $brk)) && $sds[0] == 0 && (forall k Int :: {$sds[k]} $sds[k] != 0 ==> goodSD($sds[k], structT(typeOfAbi(k))) && structish(typeOfAbi(k)) && sddone(heap("tType.Sd"), $sds[k]))
 //@ macro sdsstable = forall k Int :: {$sds[k]} old($sds[k]) != 0 ==> $sds[k] == old($sds[k])
 
 // prefetchStructDescCache maps a struct type to its descriptor as soon as the descriptor exists,
@@ -656,7 +656,7 @@ package reflect
 //@ const ghost $pfi = (Array Int Int)
 //@ macro sdtrack = (forall i int :: {prefetchedTypes[i]} 0 <= i && i < len(prefetchedTypes) ==> prefetchedTypes[i] != nil && $sd0[prefetchedTypes[i]] == 0) && (forall a Int :: {sel(heap("tType.Sd"), a)} sel(heap("tType.Sd"), a) != $sd0[a] ==> $sd0[a] == 0 && 0 <= $pfi[a] && $pfi[a] < len(prefetchedTypes) && prefetchedTypes[$pfi[a]] == a)
 //@ const ghost $inprog = (Array Int Bool)
-//@ macro pfinv = prefetchStructDescCache != nil && (forall k reflect.Type :: {maphas(prefetchStructDescCache, k)} maphas(prefetchStructDescCache, k) ==> mapget(prefetchStructDescCache, k) != nil && goodSD(mapget(prefetchStructDescCache, k), structT(k)) && ($complete[mapget(prefetchStructDescCache, k)] || $inprog[k]))
+//@ macro pfinv = prefetchStructDescCache != nil && (forall k reflect.Type :: {maphas(prefetchStructDescCache, k)} maphas(prefetchStructDescCache, k) ==> mapget(prefetchStructDescCache, k) != nil && goodSD(mapget(prefetchStructDescCache, k), structT(k)) && ($complete[mapget(prefetchStructDescCache, k)] || $inprog[k]) && ($complete[mapget(prefetchStructDescCache, k)] ==> sddone(heap("tType.Sd"), mapget(prefetchStructDescCache, k))))
 //@ macro pfstable = forall k reflect.Type :: {maphas(prefetchStructDescCache, k)} old(maphas(prefetchStructDescCache, k)) ==> maphas(prefetchStructDescCache, k) && mapget(prefetchStructDescCache, k) == old(mapget(prefetchStructDescCache, k))
 //@ macro pfclean = forall k reflect.Type :: {maphas(prefetchStructDescCache, k)} maphas(prefetchStructDescCache, k) && !old(maphas(prefetchStructDescCache, k)) ==> $complete[mapget(prefetchStructDescCache, k)]
 //@ macro pfmono = forall a Int :: {$complete[a]} old($complete[a]) ==> $complete[a]
@@ -693,6 +693,7 @@ package reflect
 //@ axiom wfTshape_rank: forall t *tType :: {wfTshape(t)} wfTshape(t) ==> trank(t) >= 0 && ((t.T == tMAP || t.T == tLIST || t.T == tSET) ==> trank(t.V) < trank(t)) && (t.T == tMAP ==> trank(t.K) < trank(t))
 //@ spec rec func tdone(h Mem, t *tType) bool = (t.T == tSTRUCT ==> h[t] != 0) && (t.T == tMAP ==> tdone(h, t.K) && tdone(h, t.V)) && ((t.T == tLIST || t.T == tSET) ==> tdone(h, t.V))
 //@ spec func sdmono(h1 Mem, h2 Mem) bool = forall a Int :: {h2[a]} h1[a] != 0 ==> h2[a] != 0
+//@ spec func sddone(h Mem, sd *structDesc) bool = forall i int :: {sd.fields[i]} 0 <= i && i < len(sd.fields) ==> tdone(h, sd.fields[i].Type)
 //@ spec uf func rkle(t *tType, k Int) bool
 //@ axiom rkle_def: forall t *tType, k Int :: {rkle(t, k)} rkle(t, k) <==> trank(t) <= k
 //@ axiom rkle_self: forall t *tType :: {trank(t)} rkle(t, trank(t))
